@@ -5,8 +5,11 @@ cd "$(dirname "$0")"
 rc=0
 for p in $(python3 -c "import json;print(' '.join(c['property_id'] for c in json.load(open('MANIFEST.json'))['checks']))"); do
   out=$(./check.sh $p ${1:-quick} 2>&1); r=$?
-  echo "$out" | grep "^VIOLATION\|^KNOWN-FINDING\|^ENGINE\|^$p:" | cut -c1-200
+  echo "$out" | grep "^VIOLATION\|^KNOWN-FINDING\|^ENGINE\|^UNDECIDED\|baseline obligations were not generated\|^$p:" | cut -c1-200
   [ $r -ne 0 ] && rc=1
+  # on the unchanged tree a contract that cannot be interpreted, or a baseline obligation that is no longer generated,
+  # is a defect of the machinery (the check silently covers less): fail loudly here, before anything is committed
+  if echo "$out" | grep -q "^UNDECIDED\|baseline obligations were not generated"; then echo "run_all: $p covers less than its baseline"; rc=1; fi
 done
 python3-vt - <<'PY'
 import json,jsonschema,glob,sys
